@@ -69,6 +69,9 @@ type ExtraResult struct {
 	Violations  []string `json:"violations,omitempty"`
 	SolverS     float64  `json:"solver_s"`
 	Inconclusive []string `json:"inconclusive,omitempty"`
+	Witness     string   `json:"witness,omitempty"` // a concrete input to replay natively through WitnessHarness
+	WitnessHarness string `json:"witness_harness,omitempty"`
+	WitnessPkg  string   `json:"witness_pkg,omitempty"`
 }
 
 func tierIndex(tier string) int {
